@@ -988,7 +988,7 @@ pub fn replay(ctx: &mut Ctx, d: &J, hash: bool) -> Option<()> {
         return Some(());
     }
     if matches!(jstr(d, "kind").as_deref(), Some("extreme-arity") | Some("diverged-clones")) {
-        // (re-run as a whole by the check itself)
+        super::rerun_fixed(ctx);
         return Some(());
     }
     if jstr(d, "kind").as_deref() == Some("slot") {
